@@ -431,6 +431,18 @@ func cliEventXML(ev string) (string, error) {
 	switch ev {
 	case "f":
 		return "<failure xmlns='" + nsSASL + "'><not-authorized/></failure>", nil
+	case "f0":
+		return "<failure xmlns='" + nsSASL + "'/>", nil
+	case "fu":
+		return "<failure xmlns='" + nsSASL + "'><something-new/></failure>", nil
+	case "ft":
+		return "<failure xmlns='" + nsSASL + "'><text xml:lang='en'>no</text></failure>", nil
+	case "fm":
+		return "<failure xmlns='" + nsSASL + "'><aborted/><not-authorized/></failure>", nil
+	case "fn":
+		return "<failure xmlns='" + nsSASL + "'><not-authorized xmlns='urn:example:other'/></failure>", nil
+	case "fx":
+		return "<failure xmlns='" + nsSASL + "'><not-authorized></failure>", nil
 	case "o":
 		return "<continue xmlns='" + nsSASL + "'/>", nil
 	case "n":
@@ -767,6 +779,12 @@ func srvEventXML(ev string) (string, error) {
 		return "<abort xmlns='" + nsSASL + "'/>", nil
 	case "F":
 		return "<failure xmlns='" + nsSASL + "'><aborted/></failure>", nil
+	case "F0":
+		return "<failure xmlns='" + nsSASL + "'/>", nil
+	case "Fu":
+		return "<failure xmlns='" + nsSASL + "'><something-new/></failure>", nil
+	case "Ft":
+		return "<failure xmlns='" + nsSASL + "'><text>no</text></failure>", nil
 	case "O":
 		return "<continue xmlns='" + nsSASL + "'/>", nil
 	case "N":
@@ -1004,7 +1022,11 @@ func multiAuth(evs []string) bool {
 
 // ---- generators -------------------------------------------------------------------------
 
-var cliAlphabet = []string{"cv01", "c-", "ceq", "cbad", "sv02", "s-", "sbad", "f", "o", "n", "w"}
+var cliAlphabet = []string{"cv01", "c-", "ceq", "cbad", "sv02", "s-", "sbad", "f", "f0", "ft", "o", "n", "w"}
+
+// every content a <failure/> element may have: a defined condition, none, an unknown one,
+// text only, several, one in a foreign namespace, malformed content
+var failureForms = []string{"f", "f0", "fu", "ft", "fm", "fn", "fx"}
 
 func cliStepScripts() [][]step {
 	m := func(b ...byte) step { return step{kind: "m", resp: b} }
@@ -1186,6 +1208,21 @@ func Run(r *common.Run) error {
 	}
 	r.Exhaustive = append(r.Exhaustive, fmt.Sprintf("client role: all peer scripts of length <= %d over %d events x %d mechanism shapes", depth, len(cliAlphabet), len(scripts)))
 
+	// ---- client role: <failure/> in every form at every point of the exchange ----
+	for si, sc := range scripts {
+		for _, f := range failureForms {
+			for _, peer := range [][]string{{f}, {f, "s-"}, {"cv01", f}, {"cv01", f, "s-"}, {"cv01", "cv02", f}, {"cv01", "cv02", "cv03", f}, {"s-", f}, {f, f}} {
+				_ = runClient(r, cliCase{mechs: []string{"M1"}, adv: []string{"M1"}, steps: sc, peer: peer}, fmt.Sprintf("cli-failure%d", si))
+			}
+		}
+	}
+	for _, f := range failureForms {
+		for _, m := range []string{"PLAIN", "ANONYMOUS"} {
+			_ = runClient(r, cliCase{mechs: []string{m}, adv: []string{m}, peer: []string{f}}, "cli-real-failure")
+			_ = runClient(r, cliCase{mechs: []string{m}, adv: []string{m}, peer: []string{f, "s-"}}, "cli-real-failure")
+		}
+	}
+
 	// ---- client role: mechanism selection, exhaustive over small lists ----
 	names := []string{"M1", "M2", "M3"}
 	var lists [][]string
@@ -1348,6 +1385,15 @@ func Run(r *common.Run) error {
 			}
 		}
 		_ = runServer(r, srvCase{mechs: []string{"M1"}, steps: []step{{kind: "d"}}, perm: perm, peer: []string{"APLAIN/" + plainPayloads()[0]}}, "srv-plain-unconfigured")
+	}
+
+	// ---- server role: <failure/> from the initiator in every form ----
+	for _, sc := range sscripts {
+		for _, f := range []string{"F", "F0", "Fu", "Ft"} {
+			for _, peer := range [][]string{{f}, {"AM1/v01", f}, {"AM1/v01", "Rv02", f}, {f, "AM1/v01"}} {
+				_ = runServer(r, srvCase{mechs: []string{"M1"}, steps: sc, perm: "any", peer: peer}, "srv-failure")
+			}
+		}
 	}
 
 	// ---- server role: write failures at every position ----
